@@ -41,7 +41,37 @@ def gen_workload(seed, nshapes, npairs, nhist, depth=2):
             lines.append(f"HIST {cid} {sid} F {G.vtext(f0)} " + ' '.join('ST ' + G.vtext(s) for s in st))
     return shapes, lines, meta, dist
 
-def build_dg(res, shapes, features=('debug_diffs',), tag='dg'):
+def gen_setter_workload(seed, nshapes, ncases):
+    rng = random.Random(seed)
+    shapes, lines, meta, dist = [], [], {}, {}
+    def hit(k): dist[k] = dist.get(k, 0) + 1
+    i = 0
+    while len(shapes) < nshapes:
+        sh = G.gen_shape(rng, rng.choice([0, 1, 2, 2]), allow_enum=False)
+        sid = str(i); i += 1
+        mode, plan = G.setter_plan(sid, sh)
+        if not plan: continue
+        ko = rng.randrange(2)
+        shapes.append((sid, ko, sh)); lines.append(f"SHAPE {sid} {ko} {sh.text()}")
+        hit('setters_' + mode)
+        for name in plan.values(): hit('custom_name' if name.startswith('cust_') else 'default_name')
+        for f in (sh.fields[j] for j in plan): hit('setter_on_' + f.strat + (str(f.ko) if f.strat == 'N' else ''))
+        for j in range(ncases):
+            x = G.gen_val(rng, sh); cur = list(x[1]); ops = []
+            for _ in range(rng.choice([1, 3, 6, 10])):
+                fi = rng.choice(sorted(plan)); f = sh.fields[fi]
+                c = rng.random()
+                if c < 0.2: v = cur[fi]; hit('op_same_value')
+                elif c < 0.35: v = G.mutate_field(rng, f, cur[fi], 'skiponly'); hit('op_skiponly_change')
+                elif c < 0.45: v = G.mutate_field(rng, f, cur[fi], 'orderonly'); hit('op_orderonly_change')
+                else: v = G.mutate_field(rng, f, cur[fi], 'any'); hit('op_change')
+                ops.append((fi, v)); cur[fi] = v
+            cid = f"t{sid}_{j}"
+            meta[cid] = (sid, x, ops)
+            lines.append(f"SET {cid} {sid} X {G.vtext(x)} OPS " + ' '.join(f"{fi} {G.vtext(v)}" for fi, v in ops))
+    return shapes, lines, meta, dist
+
+def build_dg(res, shapes, features=('debug_diffs',), tag='dg', setters=False):
     """write gen.rs for these shapes into a private copy of the harness crate and build it against /repo"""
     crate = os.path.join(WORK, tag)
     os.makedirs(os.path.join(crate, 'src'), exist_ok=True)
@@ -52,7 +82,7 @@ def build_dg(res, shapes, features=('debug_diffs',), tag='dg'):
         open(path, 'w').write(content)
     for f in ('main.rs', 'support.rs'):
         put(os.path.join(crate, 'src', f), open(os.path.join(DG, 'src', f)).read())
-    put(os.path.join(crate, 'src', 'gen.rs'), G.rust_module(shapes))
+    put(os.path.join(crate, 'src', 'gen.rs'), G.rust_module(shapes, setters=setters))
     toml = open(os.path.join(DG, 'Cargo.toml')).read().replace('features = ["debug_diffs"]', 'features = [%s]' % ', '.join(f'"{x}"' for x in features))
     put(os.path.join(crate, 'Cargo.toml'), toml)
     return cargo_build(res, crate, 'dg')
@@ -62,6 +92,12 @@ def canon_impl_lines(lines, shapes_by_id, meta):
     out = []
     for l in lines:
         p = l.split(' ', 2)
+        if len(p) == 3 and p[1].startswith('E') and p[1][1:].isdigit() and p[2] not in ('PANIC', '-', 'NOSETTER'):
+            try:
+                out.append(f"{p[0]} {p[1]} {G.canon_entry(shapes_by_id[meta[p[0]][0]][1], G.debug_parse(p[2]))}")
+            except Exception as e:
+                out.append(f"{p[0]} {p[1]} ?unparsable({e!r}) {p[2][:200]}")
+            continue
         if len(p) < 3 or p[1] not in ('D', 'DR') or p[2] == 'PANIC':
             out.append(l); continue
         sid = meta[p[0]][0]
@@ -214,3 +250,36 @@ def main(prop, rule, targets):
             if out: break
         return out
     return finish(res, search)
+
+
+def find_unbuildable_shape(res, shapes, features, setters, tag='dg_bisect'):
+    """the generated crate does not build: bisect for one shape whose declaration alone is rejected, then drop fields while it still fails.
+    returns (shape tuple, rust source, compiler errors) or None"""
+    def builds(shs):
+        tmp = Result(res.prop, res.tier, res.seed)
+        ok = build_dg(tmp, shs, features=features, tag=tag, setters=setters) is not None
+        return ok, (tmp.broken[0][2] if tmp.broken else '')
+    cur = list(shapes)
+    ok, err = builds(cur)
+    if ok: return None
+    while len(cur) > 1:
+        half = cur[:len(cur) // 2]
+        ok, e = builds(half)
+        if not ok: cur, err = half, e
+        else:
+            rest = cur[len(cur) // 2:]
+            ok2, e2 = builds(rest)
+            if ok2: break            # only the combination fails: keep what we have
+            cur, err = rest, e2
+    sid, ko, sh = cur[0]
+    if len(cur) == 1 and sh.kind == 'S':
+        changed = True
+        while changed and len(sh.fields) > 1:
+            changed = False
+            for i in range(len(sh.fields)):
+                cand = G.Sh('S', sh.fields[:i] + sh.fields[i + 1:])
+                if all(f.strat == 'K' for f in cand.fields): continue
+                ok, e = builds([(sid, ko, cand)])
+                if not ok:
+                    sh, err, changed = cand, e, True; break
+    return (sid, ko, sh), G.rust_module([(sid, ko, sh)], setters=setters), err
